@@ -75,7 +75,15 @@ def r8_histories(run, tree):
     qs.check_array_history_space(run, tree, "quick")
 
 
-RULES = [r1_operator_table, r2_convert_before_combine, r3_unit_derivation, r4_dtype_gate, r5_to, r6_helpers, r7_end_to_end, r8_histories]
+def r_registry(run, tree):
+    run.rule("C02.R9", "'incompatible dimensions raise' rests on the one pint registry (shared with C08.R5/C07.R5): cgs system, NO context enabled (a context such as "
+             "'spectroscopy' makes length, frequency and energy mutually convertible, so nm + THz stops raising), units parsed as written",
+             "who-may-call + D7 fold of units/units.py::Units on a recording registry", "", floor=4)
+    from .c08 import check_registry
+    check_registry(run, tree)
+
+
+RULES = [r_registry, r1_operator_table, r2_convert_before_combine, r3_unit_derivation, r4_dtype_gate, r5_to, r6_helpers, r7_end_to_end, r8_histories]
 
 
 def t_pair_space(run, tree):
